@@ -675,15 +675,26 @@ fn text(s: &str) -> Value {
     Value::String(s.parse().expect("text"))
 }
 
-fn gen_action(rng: &mut Rng, w: &mut GenState, allow_finalize: bool) -> (&'static str, Vec<Value>) {
+/// One honest action for the replica whose visible `Stuff` keys are `vis` (ascending; a
+/// `create_stuff` appends its fresh key).  `increment` only names a key the acting replica can
+/// see (the policy recalls an `Increment` of a missing key) and, inside a concurrent window, not a
+/// key the other branch has touched (`avoid`): two concurrent `update`s of one fact cannot both
+/// apply in the braid.
+fn gen_action(rng: &mut Rng, w: &mut GenState, vis: &mut Vec<i64>, avoid: &[i64], touched: &mut Vec<i64>, allow_finalize: bool) -> (&'static str, Vec<Value>) {
     loop {
         match rng.below(10) {
             0..=2 => {
                 w.next_a += 1;
+                vis.push(w.next_a);
+                touched.push(w.next_a);
                 return ("create_stuff", vec![Value::Int(w.next_a), Value::Int(rng.below(50) as i64)]);
             }
-            3..=5 if w.next_a > 0 => {
-                let a = 1 + rng.below(w.next_a as u64) as i64;
+            3..=5 if !vis.is_empty() => {
+                let a = vis[rng.below(vis.len() as u64) as usize];
+                if avoid.contains(&a) {
+                    continue;
+                }
+                touched.push(a);
                 return ("increment", vec![Value::Int(a), Value::Int(rng.below(9) as i64 - 3)]);
             }
             6..=8 => {
@@ -729,30 +740,42 @@ fn build_world(machine: &Machine, seed: u64, shape: u64, len: usize) -> Result<W
     a.action(graph, "add_device", vec![Value::Bytes(devs[1].ident_pk.clone()), Value::Bytes(devs[1].sign_pk.clone())])
         .map_err(|e| format!("add_device: {e}"))?;
     let mut gs = GenState::default();
+    // `Stuff` keys each replica can see, and the keys each side touches while the two work
+    // concurrently (shape 2)
+    let (mut vis_a, mut vis_a2): (Vec<i64>, Vec<i64>) = (vec![], vec![]);
+    let (mut touched_a, mut touched_a2): (Vec<i64>, Vec<i64>) = (vec![], vec![]);
     let pre = if shape == 0 { len } else { 1 + len / 2 };
     for _ in 0..pre {
-        let (n, args) = gen_action(&mut rng, &mut gs, true);
+        let (n, args) = gen_action(&mut rng, &mut gs, &mut vis_a, &[], &mut touched_a, true);
         a.action(graph, n, args).map_err(|e| format!("action {n}: {e}"))?;
     }
     if shape >= 1 {
         sync_session(&mut a2, &mut a, graph)?;
+        vis_a2 = vis_a.clone();
+        touched_a.clear();
         let n2 = 1 + rng.below(3) as usize;
         for _ in 0..n2 {
-            let (n, args) = gen_action(&mut rng, &mut gs, false);
+            let (n, args) = gen_action(&mut rng, &mut gs, &mut vis_a2, &[], &mut touched_a2, false);
             a2.action(graph, n, args).map_err(|e| format!("A2 action {n}: {e}"))?;
         }
         if shape == 2 {
             // concurrent work on A, then A learns A2's branch and acts on top (creates the merge)
             let n1 = 1 + rng.below(2) as usize;
             for _ in 0..n1 {
-                let (n, args) = gen_action(&mut rng, &mut gs, false);
+                let (n, args) = gen_action(&mut rng, &mut gs, &mut vis_a, &touched_a2, &mut touched_a, false);
                 a.action(graph, n, args).map_err(|e| format!("action {n}: {e}"))?;
             }
         }
         sync_session(&mut a, &mut a2, graph)?;
+        for k in &vis_a2 {
+            if !vis_a.contains(k) {
+                vis_a.push(*k);
+            }
+        }
+        vis_a.sort();
         let rest = len.saturating_sub(pre).max(1);
         for _ in 0..rest {
-            let (n, args) = gen_action(&mut rng, &mut gs, true);
+            let (n, args) = gen_action(&mut rng, &mut gs, &mut vis_a, &[], &mut touched_a, true);
             a.action(graph, n, args).map_err(|e| format!("action {n} after sync: {e}"))?;
         }
     }
